@@ -61,3 +61,49 @@ package keeper
 //@   ensures frame: err == nil ==> store(ctx) == del(S0, ckey) && world(ctx) == withKV(old(world(ctx)), k.storeService, store(ctx))
 //@   ensures fail_unchanged: err != nil ==> world(ctx) == old(world(ctx))
 //@   ensures noop_absent: errIs(err, types.ErrNoOpMsg) ==> get(S0, ckey) == ""
+
+//@ contract (*Keeper).sendPacket
+//@   let S0 = store(ctx)
+//@   let cp = k.clientV2Keeper.GetClientCounterparty(ctx, sourceClient)
+//@   let cpFound = nth(k.clientV2Keeper.GetClientCounterparty(ctx, sourceClient), 1)
+//@   let seqRaw = get(S0, hostv2.NextSequenceSendKey(sourceClient))
+//@   let seq0 = unbe64(seqRaw)
+//@   let alias = k.GetClientForAlias(ctx, sourceClient)
+//@   let isAlias = nth(k.GetClientForAlias(ctx, sourceClient), 1)
+//@   let clientID = ite(isAlias, alias, sourceClient)
+//@   let lh = clientLatestHeightV2(world(ctx), clientID)
+//@   let ltsNano = clientTimestampAtV2(world(ctx), clientID, box(lh))
+//@   let tsSigned = ite(timeoutTimestamp < 9223372036854775808, timeoutTimestamp, timeoutTimestamp - 18446744073709551616)
+//@   modifies world(ctx)
+//@   ensures seq: err == nil ==> result0 == seq0 && seqRaw != "" && cpFound && result1 == cp.ClientId
+//@   ensures frame: err == nil ==> store(ctx) == set(set(S0, hostv2.NextSequenceSendKey(sourceClient), be64((seq0 + 1) % 18446744073709551616)), hostv2.PacketCommitmentKey(sourceClient, seq0), types.CommitPacket(types.NewPacket(seq0, sourceClient, cp.ClientId, timeoutTimestamp, payloads)))
+//@   ensures only_store: err == nil ==> world(ctx) == withKV(old(world(ctx)), k.storeService, store(ctx))
+//@   ensures timeout_after_block: err == nil ==> tsSigned * 1000000000 > blocktime(ctx)
+//@   ensures timeout_within_delta: err == nil ==> tsSigned * 1000000000 <= blocktime(ctx) + 86400000000000
+//@   ensures client_active: err == nil ==> clientStatusV2(old(world(ctx)), clientID) == exported.Active
+//@   ensures nonzero_height: err == nil ==> !(lh.RevisionNumber == 0 && lh.RevisionHeight == 0)
+//@   ensures not_elapsed_at_client: err == nil ==> clientTimestampErrV2(old(world(ctx)), clientID, box(lh)) == nil && (ite(ltsNano < 9223372036854775808, ltsNano, ltsNano - 18446744073709551616) / 1000000000) % 18446744073709551616 < timeoutTimestamp
+//@   ensures fail_unchanged: err != nil ==> world(ctx) == old(world(ctx))
+
+//@ contract (*Keeper).writeAcknowledgement
+//@   let D = packet.DestinationClient
+//@   let s = packet.Sequence
+//@   let S0 = store(ctx)
+//@   let akey = hostv2.PacketAcknowledgementKey(D, s)
+//@   modifies world(ctx)
+//@   ensures write_once: err == nil ==> !has(S0, akey)
+//@   ensures needs_receipt: err == nil ==> get(S0, hostv2.PacketReceiptKey(D, s)) != ""
+//@   ensures frame: err == nil ==> store(ctx) == set(S0, akey, types.CommitAcknowledgement(ack)) && world(ctx) == withKV(old(world(ctx)), k.storeService, store(ctx))
+//@   ensures exists_error: has(S0, akey) ==> err != nil
+//@   ensures fail_unchanged: err != nil ==> world(ctx) == old(world(ctx))
+
+//@ contract (*Keeper).WriteAcknowledgement
+//@   let S0 = store(ctx)
+//@   let akey = hostv2.PacketAcknowledgementKey(clientID, sequence)
+//@   let asyncKey = types.AsyncPacketKey(clientID, sequence)
+//@   let pkt = k.GetAsyncPacket(ctx, clientID, sequence)
+//@   modifies world(ctx)
+//@   ensures async_present: err == nil ==> get(S0, asyncKey) != ""
+//@   ensures async_removed: err == nil ==> !has(store(ctx), asyncKey)
+//@   ensures write_once: err == nil ==> !has(S0, hostv2.PacketAcknowledgementKey(pkt.DestinationClient, pkt.Sequence))
+//@   ensures frame: err == nil ==> store(ctx) == del(set(S0, hostv2.PacketAcknowledgementKey(pkt.DestinationClient, pkt.Sequence), types.CommitAcknowledgement(ack)), asyncKey)
